@@ -210,6 +210,7 @@ func scaleSets(tier string) []Set {
 		add(fmt.Sprintf("scale many-module-identities n=%d", n), scale.ManyModuleIdentities(n)...)
 		add(fmt.Sprintf("scale counts n=%d", n), scale.Counts(n))
 		add(fmt.Sprintf("scale many-leaves n=%d", n), scale.ManyLeaves(n))
+		add(fmt.Sprintf("scale uses-in-one-node n=%d", n), scale.UsesInOneNode(n))
 		if n <= 12 {
 			add(fmt.Sprintf("scale augment-ladder n=%d", n), scale.AugmentLadder(n)...)
 		}
